@@ -153,7 +153,7 @@ func (cse *connectivityStateEvaluator) recordTransition(
 // subConnRef keeps reference to the real SubConn with its
 // connectivity state, affinity count and streams count.
 type subConnRef struct {
-	// mu protects subConn, lastResp, refreshing and refreshCnt: they are written by the balancer
+	// mu protects subConn, lastResp, deCalls, refreshing and refreshCnt: they are written by the balancer
 	// (refresh, swap) and by completion callbacks, and read by pickers from other goroutines.
 	// Lock order: gcpBalancer.mu before subConnRef.mu.
 	mu          sync.RWMutex
@@ -191,16 +191,27 @@ func (ref *subConnRef) streamsDecr() {
 	atomic.AddInt32(&ref.streamsCnt, -1)
 }
 
-func (ref *subConnRef) deCallsInc() uint32 {
-	return atomic.AddUint32(&ref.deCalls, 1)
+// deCallEnded counts a call that started at callStarted and ended with a deadline exceeded
+// error, unless a response was received after the call started. It returns the new count
+// and the last response time it is based on. The test and the increment are one critical
+// section with gotResp: a response arriving in between must not be followed by the count
+// of a call that started before it.
+func (ref *subConnRef) deCallEnded(callStarted time.Time) (deCalls uint32, lastResp time.Time, counted bool) {
+	ref.mu.Lock()
+	defer ref.mu.Unlock()
+	if callStarted.Before(ref.lastResp) {
+		return ref.deCalls, ref.lastResp, false
+	}
+	ref.deCalls++
+	return ref.deCalls, ref.lastResp, true
 }
 
 func (ref *subConnRef) gotResp() {
 	ref.mu.Lock()
 	ref.lastResp = time.Now()
 	ref.refreshCnt = 0
+	ref.deCalls = 0
 	ref.mu.Unlock()
-	atomic.StoreUint32(&ref.deCalls, 0)
 }
 
 func (ref *subConnRef) getSubConn() balancer.SubConn {
@@ -562,8 +573,8 @@ func (gb *gcpBalancer) UpdateSubConnState(sc balancer.SubConn, scs balancer.SubC
 		scRef.lastResp = time.Now()
 		scRef.refreshing = false
 		scRef.refreshCnt++
+		scRef.deCalls = 0
 		scRef.mu.Unlock()
-		atomic.StoreUint32(&scRef.deCalls, 0)
 		// Keys bound (or temporarily mapped) to the old SubConn follow the scRef to the fresh one.
 		for k, v := range gb.affinityMap {
 			if v == oldSc {
